@@ -166,14 +166,24 @@ def _module_state():
             tuple((owner, f.cache_info().currsize) for owner, f in _lru_caches()))
 
 
-def _reset():
+# memo tables of pure functions of one integer (all pin words of a length and their permutations);
+# the table for length 6 takes seconds to build, so explorations that involve permutations of that
+# length keep these three warm and reset everything else
+_PURE_TABLES = ("pinword_to_perm_mapping", "perm_to_pinword_mapping", "perm_to_strict_pinword_mapping")
+_KEEP_TABLES = False
+
+
+def _reset(keep_tables=None):
     """Bring every piece of process-wide state of the two stores back to 'just imported'."""
     global _INITIAL
     import copy
     _lib()
     if _INITIAL is None:
         _INITIAL = {owner: copy.deepcopy(c) for owner, c in _containers()}
-    for _, f in _lru_caches():
+    keep = _KEEP_TABLES if keep_tables is None else keep_tables
+    for owner, f in _lru_caches():
+        if keep and str(owner[1]).split(".")[-1] in _PURE_TABLES:
+            continue
         f.cache_clear()
     for owner, c in _containers():
         init = _INITIAL.get(owner)
@@ -580,7 +590,7 @@ def _ref(pi):
     pi = tuple(pi)
     if pi not in _REF:
         Perm, PinWords, _ = _lib()
-        _reset()
+        _reset(keep_tables=True)
         d = PinWords.make_dfa_for_perm(Perm(pi))
         _LIBDFA[pi] = d
         _LIBREPR[pi] = repr(d)
@@ -628,6 +638,7 @@ class DbModel:
         self.creates = list(params["creates"])
         self.bases = [[tuple(p) for p in b] for b in params["bases"]]
         self.skeleton = tuple(params.get("skeleton", ()))
+        self.warm = bool(params.get("warm_tables"))
         for p in self.pool:
             _ref(p)
         for n in self.creates:
@@ -635,8 +646,10 @@ class DbModel:
                 _ref(p)
 
     def build(self, hist):
+        global _KEEP_TABLES
         Perm, PinWords, _ = _lib()
         _scratch("db", self.skeleton)
+        _KEEP_TABLES = self.warm
         _reset()
         corrupt = {}          # pi -> bytes the harness left in the file
         viols = []
@@ -947,10 +960,12 @@ def shard_bisc_trunc(shard):
 
 
 def _db_trunc_case(part, pi, only_k=None):
+    global _KEEP_TABLES
     Perm, PinWords, _ = _lib()
     _scratch("trunc")
-    _reset()
     pi = tuple(pi)
+    _KEEP_TABLES = len(pi) >= 5
+    _reset()
     _ref(pi)
     _reset()
     _, exc, _ = _call(PinWords.store_dfa_for_perm, Perm(pi))
@@ -1334,6 +1349,23 @@ def _db_params(quick, bare=False):
     return prm
 
 
+# Automata whose stored TEXT has an extreme shape: the universal language (empty permutation: every
+# state accepting) and the empty language (a permutation without any pin word: no accepting state,
+# which the automata library prints differently from a non-empty set).  Permutations without pin
+# words first exist at length 6; these are the lexicographically first one and a second one that is
+# not related to it by a symmetry of the square.
+SHAPE_POOL = [(), (1, 2, 5, 0, 3, 4), (2, 4, 0, 5, 1, 3)]
+
+
+def _shape_params():
+    return {"pool": SHAPE_POOL, "creates": [], "bases": _subsets(SHAPE_POOL, 3),
+            "skeleton": ["dfa_db", "dfa_db/S0", "dfa_db/S6"], "warm_tables": True}
+
+
+def _shape_initials():
+    return [(), tuple(("storeg", p) for p in SHAPE_POOL)]
+
+
 def _db_initials():
     return [(),
             (("create", 2),),
@@ -1392,16 +1424,21 @@ def run(ctx, only=None):
         params = _db_params(quick)
         DbModel(params)      # reference automata are computed before the workers are forked
         db_hists = []
+        shape = ("automata of extreme shape (universal / empty language)", _shape_params(), _shape_initials(),
+                 2 if quick else 3)
         if quick:
             plan = [("bare directory", _db_params(True, bare=True), [()], 2),
+                    shape,
                     ("empty database skeleton", params, _db_initials(), 2)]
         else:
             small = _db_params(True)
             plan = [("bare directory", _db_params(True, bare=True), [()], 3),
+                    shape,
                     ("empty database skeleton", small, _db_initials(), 3),
                     ("empty database skeleton, larger pool", params, _db_initials(), 2)]
         ctx.bounds["db_hist"] = []
         for label, prm, inits, depth in plan:
+            _model("db", prm)     # reference automata (and warm tables) exist before the workers are forked
             st = pbfs(ctx, "db", prm, inits, depth)
             states += st["states"]
             transitions += st["transitions"]
@@ -1419,6 +1456,8 @@ def run(ctx, only=None):
         same = [(a, b) for a, b in itertools.combinations(pool, 2)
                 if F.difference_word(_ref(a), [_ref(b)]) is None]
         ctx.bump("db_pool_pairs_with_equal_language", len(same))
+        ctx.extra["shape_pool_languages"] = {repr(p): ("empty" if F.difference_word(_ref(p), []) is None else
+                                                       "non-empty") for p in SHAPE_POOL}
         ctx.extra["db_pool_pairs_with_equal_language"] = same
     if want("bisc_trunc"):
         e0 = ctx.evals
@@ -1431,11 +1470,12 @@ def run(ctx, only=None):
     if want("db_trunc"):
         e0 = ctx.evals
         nmax = 3 if quick else 4
-        perms = [p for n in range(nmax + 1) for p in R.perms(n)]
+        perms = [p for n in range(nmax + 1) for p in R.perms(n)] + [p for p in SHAPE_POOL if len(p) > nmax]
         for p in perms:
             _ref(p)
         ctx.pmap(shard_db_trunc, [[p] for p in perms])
-        ctx.bounds["db_trunc"] = "every byte prefix of the stored file of every permutation of length <= %d" % nmax
+        ctx.bounds["db_trunc"] = ("every byte prefix of the stored file of every permutation of length <= %d and of "
+                                  "the shape-extreme permutations %r" % (nmax, SHAPE_POOL))
         traces += ctx.evals - e0
         ctx.section("db_trunc", evaluations=ctx.evals - e0)
     if want("malformed"):
